@@ -246,7 +246,7 @@ func (g *selGen) ident(pool []string) string {
 	s := rng.Pick(r, pool...)
 	if g.escapes && r.P(1, 6) {
 		g.f("escape")
-		return rng.Pick(r, `\31 23`, `a\.b`, `\#x`, `c\31 `, `\-1`, `-\31 x`, `\e9 t`, `a\ b`, `\000041z`, `\:k`)
+		return rng.Pick(r, `\31 23`, `a\.b`, `\#x`, `c\31 `, `\-1`, `-\31 x`, `\e9 t`, `a\ b`, `\000041z`, `\:k`, `a\3 b`)
 	}
 	return s
 }
@@ -615,8 +615,13 @@ func printerClass(as []selector.VerifC05AST) []string {
 				if n.Kind == "class" && s != "" && '0' <= s[0] && s[0] <= '9' {
 					cls["class-leading-digit"] = true
 				}
+				for i := 0; i < len(n.Name); i++ {
+					if c := n.Name[i]; c < 0x20 || c == 0x7f { // neither a name character nor in escape()'s table
+						cls["name-control-char-not-escaped"] = true
+					}
+				}
 			case "tag":
-				if t := strings.TrimLeft(n.Name, "-"); t != "" && '0' <= t[0] && t[0] <= '9' {
+				if t := strings.TrimLeft(n.Name, "-"); t == "" || '0' <= t[0] && t[0] <= '9' { // "-", "--", "-1x": not an identifier when printed raw
 					cls["tag-not-escaped"] = true
 				}
 				for i := 0; i < len(n.Name); i++ {
@@ -628,6 +633,9 @@ func printerClass(as []selector.VerifC05AST) []string {
 				if strings.ContainsAny(n.Val, "\"\\\n\r\f") {
 					cls["attr-value-not-escaped"] = true
 				}
+				if t := strings.TrimLeft(n.Key, "-"); t == "" || '0' <= t[0] && t[0] <= '9' {
+					cls["attr-key-not-escaped"] = true
+				}
 				for i := 0; i < len(n.Key); i++ {
 					if !nameChar(n.Key[i]) {
 						cls["attr-key-not-escaped"] = true
@@ -638,7 +646,7 @@ func printerClass(as []selector.VerifC05AST) []string {
 	}
 	// one key per finding: the first applicable class in a fixed priority order (all classes go to the reason)
 	var ks []string
-	for _, k := range []string{"attr-value-not-escaped", "class-leading-digit", "tag-not-escaped", "attr-key-not-escaped"} {
+	for _, k := range []string{"attr-value-not-escaped", "class-leading-digit", "name-control-char-not-escaped", "tag-not-escaped", "attr-key-not-escaped"} {
 		if cls[k] {
 			ks = append(ks, k)
 		}
@@ -657,8 +665,24 @@ func first(ks []string) string {
 // one case
 
 type runner struct {
-	m   *mp.Model
-	out *res.Result
+	m    *mp.Model
+	out  *res.Result
+	seen map[string]int
+}
+
+// add records a finding; classified judge findings (the known classes repeat thousands of times) are kept
+// once per class so that the shared cap on findings can never hide a correspondence failure or a new class.
+func (c *runner) add(f res.Finding) {
+	if c.seen == nil {
+		c.seen = map[string]int{}
+	}
+	k := f.Kind + "|" + f.Op + "|" + f.Key
+	c.seen[k]++
+	if f.Kind == "judge" && f.Key != "" && c.seen[k] > 1 {
+		c.out.Hit("finding:" + f.Kind + ":" + f.Op)
+		return
+	}
+	c.out.Add(f)
 }
 
 func bitsOf(s selector.Sel, nodes []*html.Node) string {
@@ -690,7 +714,7 @@ func (c *runner) check(selText string, root *html.Node, seed uint64, feat map[st
 	var group selector.SelectorGroup
 	var perr error
 	if p := guard(func() { group, perr = selector.ParseGroup(selText) }); p != "" {
-		out.Add(res.Finding{Kind: "crash", Op: "crash:ParseGroup", Input: input, Reason: p, Key: "ParseGroup", Seed: seed})
+		c.add(res.Finding{Kind: "crash", Op: "crash:ParseGroup", Input: input, Reason: p, Key: "ParseGroup", Seed: seed})
 		return nil
 	}
 	if perr != nil {
@@ -723,7 +747,7 @@ func (c *runner) check(selText string, root *html.Node, seed uint64, feat map[st
 			implPE[i] = s.PseudoElement()
 		}
 	}); p != "" {
-		out.Add(res.Finding{Kind: "crash", Op: "crash:Match", Input: input, Reason: p, Key: "Match", Seed: seed})
+		c.add(res.Finding{Kind: "crash", Op: "crash:Match", Input: input, Reason: p, Key: "Match", Seed: seed})
 		return nil
 	}
 	// model
@@ -747,11 +771,11 @@ func (c *runner) check(selText string, root *html.Node, seed uint64, feat map[st
 		}
 		mPE := r.Xs[3].S
 		if mBits != implBits[i] {
-			out.Add(res.Finding{Kind: "corr", Op: "corr:match", Input: input, Impl: implBits[i], Model: mBits,
+			c.add(res.Finding{Kind: "corr", Op: "corr:match", Input: input, Impl: implBits[i], Model: mBits,
 				Reason: fmt.Sprintf("selector #%d of the group: match bits per node (document order) differ", i), Key: stream, Seed: seed})
 		}
 		if mSpec != implSpec[i] || mPE != implPE[i] {
-			out.Add(res.Finding{Kind: "corr", Op: "corr:specificity", Input: input, Impl: fmt.Sprint(implSpec[i], implPE[i]), Model: fmt.Sprint(mSpec, mPE),
+			c.add(res.Finding{Kind: "corr", Op: "corr:specificity", Input: input, Impl: fmt.Sprint(implSpec[i], implPE[i]), Model: fmt.Sprint(mSpec, mPE),
 				Reason: "Specificity()/PseudoElement() differ from the model", Key: stream, Seed: seed})
 		}
 		if strings.Contains(implBits[i], "1") && strings.Contains(implBits[i][1:], "0") {
@@ -765,7 +789,7 @@ func (c *runner) check(selText string, root *html.Node, seed uint64, feat map[st
 					key = "never-match-pseudo-class"
 				}
 			})
-			out.Add(res.Finding{Kind: "judge", Op: "judge:specificity", Input: "sel=" + strconv.Quote(group[i].String()),
+			c.add(res.Finding{Kind: "judge", Op: "judge:specificity", Input: "sel=" + strconv.Quote(group[i].String()),
 				Impl: fmt.Sprint(implSpec[i]), Model: fmt.Sprint(want),
 				Reason: "Specificity() is not (ids, classes+attributes+pseudo-classes, types+pseudo-elements)", Key: key, Seed: seed})
 		}
@@ -773,23 +797,23 @@ func (c *runner) check(selText string, root *html.Node, seed uint64, feat map[st
 	// judge: printed selector parses to an equivalent selector
 	var printed string
 	if p := guard(func() { printed = group.String() }); p != "" {
-		out.Add(res.Finding{Kind: "crash", Op: "crash:String", Input: input, Reason: p, Key: "String", Seed: seed})
+		c.add(res.Finding{Kind: "crash", Op: "crash:String", Input: input, Reason: p, Key: "String", Seed: seed})
 		return nil
 	}
 	pin := fmt.Sprintf("sel=%s printed=%s", strconv.Quote(selText), strconv.Quote(printed))
 	g2, err2 := selector.ParseGroup(printed)
 	switch {
 	case err2 != nil:
-		out.Add(res.Finding{Kind: "judge", Op: "judge:print-reparse", Input: pin, Impl: "re-parse error: " + err2.Error(),
+		c.add(res.Finding{Kind: "judge", Op: "judge:print-reparse", Input: pin, Impl: "re-parse error: " + err2.Error(),
 			Reason: fmt.Sprint("String() of a parsed selector does not parse; strings the printer does not escape: ", printerClass(asts)), Key: first(printerClass(asts)), Seed: seed})
 	case len(g2) != len(group):
-		out.Add(res.Finding{Kind: "judge", Op: "judge:print-reparse", Input: pin, Impl: fmt.Sprintf("%d selectors", len(g2)),
+		c.add(res.Finding{Kind: "judge", Op: "judge:print-reparse", Input: pin, Impl: fmt.Sprintf("%d selectors", len(g2)),
 			Reason: fmt.Sprint("String() re-parses to a group of another length; strings the printer does not escape: ", printerClass(asts)), Key: first(printerClass(asts)), Seed: seed})
 	default:
 		for i := range group {
 			b2 := bitsOf(g2[i], nodes)
 			if b2 != implBits[i] || spec3(g2[i].Specificity()) != implSpec[i] || g2[i].PseudoElement() != implPE[i] {
-				out.Add(res.Finding{Kind: "judge", Op: "judge:print-reparse", Input: pin + " tree=" + treeText(root),
+				c.add(res.Finding{Kind: "judge", Op: "judge:print-reparse", Input: pin + " tree=" + treeText(root),
 					Impl:   fmt.Sprint(b2, g2[i].Specificity(), g2[i].PseudoElement()),
 					Model:  fmt.Sprint(implBits[i], implSpec[i], implPE[i]),
 					Reason: fmt.Sprint("String() re-parses to a selector that matches/weighs differently; strings the printer does not escape: ", printerClass(asts)), Key: first(printerClass(asts)), Seed: seed})
@@ -831,7 +855,7 @@ func (c *runner) emptyValue(r *rng.R, n int) {
 		c.out.Count("empty:"+sel+"|"+treeText(root), strings.Contains(treeText(root), " "+key+"="))
 		c.out.Hit("judge:empty-value")
 		if strings.Contains(bits, "1") {
-			c.out.Add(res.Finding{Kind: "judge", Op: "judge:empty-value", Input: fmt.Sprintf("sel=%s tree=%s", strconv.Quote(sel), treeText(root)),
+			c.add(res.Finding{Kind: "judge", Op: "judge:empty-value", Input: fmt.Sprintf("sel=%s tree=%s", strconv.Quote(sel), treeText(root)),
 				Impl: bits, Model: strings.Repeat("0", len(bits)),
 				Reason: "an attribute selector with operator " + op + " and an empty value must match nothing", Key: op, Seed: seed})
 		}
@@ -872,7 +896,7 @@ func (c *runner) probes() error {
 	for _, p := range probes {
 		g, err := selector.ParseGroup(p.sel)
 		if err != nil {
-			c.out.Add(res.Finding{Kind: "judge", Op: "judge:probe", Input: p.sel, Reason: "does not parse: " + err.Error(), Key: p.name})
+			c.add(res.Finding{Kind: "judge", Op: "judge:probe", Input: p.sel, Reason: "does not parse: " + err.Error(), Key: p.name})
 			continue
 		}
 		doc, _ := html.Parse(strings.NewReader(p.doc))
@@ -892,7 +916,7 @@ func (c *runner) probes() error {
 		c.out.Count("probe:"+p.name, true)
 		c.out.Hit("judge:probe")
 		if fmt.Sprint(got) != fmt.Sprint(p.want) {
-			c.out.Add(res.Finding{Kind: "judge", Op: "judge:probe", Input: fmt.Sprintf("sel=%s doc=%s", strconv.Quote(p.sel), strconv.Quote(p.doc)),
+			c.add(res.Finding{Kind: "judge", Op: "judge:probe", Input: fmt.Sprintf("sel=%s doc=%s", strconv.Quote(p.sel), strconv.Quote(p.doc)),
 				Impl: fmt.Sprint(got), Model: fmt.Sprint(p.want), Reason: "matched elements (by id) differ from the Selectors definition", Key: p.name})
 		}
 		// the same documents also go through the model
